@@ -312,6 +312,18 @@ func propC05() *lib.Prop {
 		},
 		Impl: func(c lib.Case) []string {
 			out := make([]string, 0, len(c.Ops))
+			// one long-lived store per key-group count and ONE subject-key buffer per case, overwritten by every op: what the
+			// store persists for a key is a function of that call's key bytes only, whatever an earlier call was given in the
+			// same backing array (seeded C05-9: a last-key cache that keeps the caller's slice)
+			stores := map[int]*operator.KeyedStateStore{}
+			storeOf := func(kgc int) *operator.KeyedStateStore {
+				if stores[kgc] == nil {
+					stores[kgc] = operator.NewKeyedStateStore(nil, partitioning.NewKeySpace(kgc, 1))
+				}
+				return stores[kgc]
+			}
+			var kb []byte
+			subj := func(k []byte) []byte { kb = append(kb[:0], k...); return kb }
 			for _, op := range c.Ops {
 				f := strings.Fields(op)
 				at := func(i int) int { v, _ := strconv.Atoi(f[i]); return v }
@@ -332,11 +344,9 @@ func propC05() *lib.Prop {
 				case "route":
 					out = append(out, routeOnce(at(1), at(2), lib.UnHex(f[3])))
 				case "dbkey":
-					ks := operator.NewKeyedStateStore(nil, partitioning.NewKeySpace(at(1), 1))
-					out = append(out, lib.Hex(ks.VerifEncodeDBKey(lib.UnHex(f[2]), string(lib.UnHex(f[3])), lib.UnHex(f[4]))))
+					out = append(out, lib.Hex(storeOf(at(1)).VerifEncodeDBKey(subj(lib.UnHex(f[2])), string(lib.UnHex(f[3])), lib.UnHex(f[4]))))
 				case "subjkey":
-					ks := operator.NewKeyedStateStore(nil, partitioning.NewKeySpace(at(1), 1))
-					out = append(out, lib.Hex(ks.VerifEncodeSubjectKey(lib.UnHex(f[2]))))
+					out = append(out, lib.Hex(storeOf(at(1)).VerifEncodeSubjectKey(subj(lib.UnHex(f[2])))))
 				case "timerkey":
 					ts := operator.NewTimerStore(nil, partitioning.NewKeySpace(at(1), 1), partitioning.KeyGroupRange{Start: 0, End: 1}, 1024)
 					t, _ := strconv.ParseUint(f[3], 10, 64)
